@@ -1478,3 +1478,124 @@ func VH_C13_stream_listen_again() {
 	}
 	verifReach("C13.again.done", true)
 }
+
+// C12 / C13: an address is fully released and listened on again AT ONCE (a reload that drops a
+// port and a next one that brings it back), whatever the manager still had to do for the release;
+// afterwards a second handle on the address shares the socket like any other: no "address in
+// use", and a connection is delivered to exactly one of the two handles
+func VH_C12_listen_again_then_share() {
+	for rep := 0; rep < verifRepeat(60); rep++ {
+		if !verifBody_C12_listen_again_then_share() {
+			return
+		}
+	}
+}
+
+func verifBody_C12_listen_again_then_share() bool {
+	lm := NewListenerManager()
+	const addr = "127.0.0.1:9323"
+	if verifFlag("packet") {
+		p1, err := lm.ListenPacket(addr)
+		verifAssert("C12.relisten.packet.listen", err == nil)
+		if err != nil {
+			return false
+		}
+		p1.Close()
+		p2, err := lm.ListenPacket(addr) // at once: nothing else has run since the release
+		verifAssert("C12.relisten.packet.listen-again|C13.relisten.packet.listen-again", err == nil)
+		if err != nil {
+			return false
+		}
+		verifQuiesce()
+		if verifNative() {
+			verifPause()
+		}
+		p3, err := lm.ListenPacket(addr)
+		ok := err == nil
+		verifAssert("C12.relisten.packet.second-handle-shares-the-socket|C13.relisten.packet.second-handle-shares-the-socket", ok)
+		if p3 != nil {
+			p3.Close()
+		}
+		p2.Close()
+		verifQuiesce()
+		verifReach("C12.relisten.packet.done", true)
+		return ok
+	}
+	l1, err := lm.ListenStream(addr)
+	verifAssert("C12.relisten.listen", err == nil)
+	if err != nil {
+		return false
+	}
+	l1.Close()
+	l2, err := lm.ListenStream(addr) // at once: nothing else has run since the release
+	verifAssert("C12.relisten.listen-again|C13.relisten.listen-again", err == nil)
+	if err != nil {
+		return false
+	}
+	verifQuiesce()
+	if verifNative() {
+		verifPause()
+	}
+	l3, err := lm.ListenStream(addr)
+	ok := err == nil
+	verifAssert("C12.relisten.second-handle-shares-the-socket|C13.relisten.second-handle-shares-the-socket", ok)
+	if ok {
+		a2, a3 := verifAcceptAsync(l2), verifAcceptAsync(l3)
+		id := verifDialTCP(l2.Addr())
+		verifAssert("C12.relisten.not-refused", id >= 0)
+		verifSettle(func() bool { return len(a2)+len(a3) >= 1 })
+		verifQuiesce()
+		once := len(a2)+len(a3) == 1
+		verifAssert("C12.relisten.delivered-exactly-once", once)
+		ok = ok && once
+		l3.Close()
+	}
+	l2.Close()
+	verifQuiesce()
+	verifAssert("C12.relisten.nothing-running-after-release", verifBlockedIn(verifAcceptLoop) == 0)
+	verifReach("C12.relisten.done", true)
+	return ok
+}
+
+// C13: a handle is closed while another goroutine is just entering AcceptStream on it (a serving
+// loop coming round for its next connection as the listener is stopped): both calls return, and
+// the accept call returns an error or a connection, never hangs
+func VH_C13_accept_starts_during_close() {
+	for rep := 0; rep < verifRepeat(300); rep++ {
+		lm := NewListenerManager()
+		ln, err := lm.ListenStream("127.0.0.1:9324")
+		verifAssert("C13.accept-during-close.listen", err == nil)
+		if err != nil {
+			return
+		}
+		other := verifFlag("another-handle-stays-open")
+		var keep StreamListener
+		if other {
+			keep, err = lm.ListenStream("127.0.0.1:9324")
+			verifAssert("C13.accept-during-close.listen-other", err == nil)
+		}
+		done := make(chan int, 2)
+		verifSched(1)
+		go func() {
+			c, err := ln.AcceptStream()
+			if err == nil && c != nil {
+				c.Close()
+			}
+			done <- 1
+		}()
+		go func() { ln.Close(); done <- 2 }()
+		verifQuiesce()
+		verifSched(0)
+		ok := len(done) == 2
+		verifAssert("C13.accept-during-close.all-calls-return", ok)
+		if !ok {
+			return
+		}
+		if keep != nil {
+			keep.Close()
+		}
+		verifQuiesce()
+		verifAssert("C12.accept-during-close.nothing-running-after-release", verifBlockedIn(verifAcceptLoop) == 0)
+	}
+	verifReach("C13.accept-during-close.done", true)
+}
